@@ -131,6 +131,8 @@ def random_calls(n, seed, argvals, nparams=3):
             if hasd:
                 good = [v for v in argvals if (ty == 'str') or (ty == 'bool' and v in ('true', 'false')) or (ty in ('int', 'num') and re.match(r'^-?\d', v))]
                 d = rng.choice(good if rng.random() < 0.7 and good else argvals)
+                if rng.random() < 0.12:
+                    d = ''          # the explicit empty default `[]`
             ps.append({'type': ty, 'optional': optional, 'hasDefault': hasd, 'default': d})
         mand = k - nopt
         m = rng.randint(mand, k) if rng.random() < 0.9 else rng.randint(0, k)
